@@ -1,9 +1,14 @@
 import SvgVerif.Model.Proto
 import SvgVerif.Model.Poly
+import SvgVerif.Model.PathParam
 /-! Correspondence driver: one operation per input line, one canonical result per
 output line.  Run as `lake env lean --run Driver.lean < ops.txt`.  The Python
 harness feeds the same operations to the real svgpathtools code and diffs. -/
 open SvgVerif.Model SvgVerif.Model.Proto
+
+def showIdxT : Option (Nat × Rat) → String
+  | none => "none"
+  | some (k, t) => s!"{k} {showRat t}"
 
 def rtol : Rat := 1 / 100000
 def atol : Rat := 1 / 100000000
@@ -32,6 +37,43 @@ def handle (cmd : String) (args : List String) : String :=
         | .fuel => "fuel"
       | _, _, _ => "bad-args"
     | _ => "bad-args"
+  -- C05 -------------------------------------------------------------------
+  | "calclengths" =>
+    match parseRats? args with
+    | some ls => let (tot, fr) := PathParam.calcLengths ls; showRat tot ++ " | " ++ showRats fr
+    | none => "bad-args"
+  | "T2t" =>
+    match splitBar args with
+    | [ls, [T]] =>
+      match parseRats? ls, parseRat? T with
+      | some ls, some T => showIdxT (PathParam.T2t (PathParam.calcLengths ls).2 T)
+      | _, _ => "bad-args"
+    | _ => "bad-args"
+  | "pointidx" =>
+    match splitBar args with
+    | [ls, [T]] =>
+      match parseRats? ls, parseRat? T with
+      | some ls, some T => showIdxT (PathParam.pointIdx (PathParam.calcLengths ls).2 T)
+      | _, _ => "bad-args"
+    | _ => "bad-args"
+  | "t2T" =>
+    match splitBar args with
+    | [ls, [k, t]] =>
+      match parseRats? ls, k.toNat?, parseRat? t with
+      | some ls, some k, some t =>
+        match PathParam.t2T (PathParam.calcLengths ls).2 k t with
+        | some T => showRat T
+        | none => "none"
+      | _, _, _ => "bad-args"
+    | _ => "bad-args"
+  | "subpaths" =>   -- args: s1 e1 s2 e2 ... (integer point labels)
+    match (args.mapM parseInt?) >>= pairUp with
+    | some segs =>
+      let sp := PathParam.continuousSubpaths segs
+      let cont := PathParam.isContinuous segs
+      let closed := match PathParam.isClosed segs with | none => "assert" | some b => toString b
+      s!"{cont} {closed} " ++ " ".intercalate (sp.map (fun p => toString p.length))
+    | none => "bad-args"
   | _ => "bad-op"
 
 partial def loop (h : IO.FS.Stream) (out : IO.FS.Stream) : IO Unit := do
